@@ -1,0 +1,344 @@
+//! Verification hooks and introspection shims (cargo feature `circ_verif`, off by default).
+//!
+//! Nothing in this module changes the behaviour of the library: [`yp`] and [`ev`] call back into
+//! functions installed by an external harness (no-ops when none is installed), and the other items
+//! only read state or re-export crate-private pieces so that they can be exercised directly.
+
+use std::sync::atomic::{AtomicPtr, Ordering};
+
+pub use crate::ebr_impl::verif_shim::*;
+pub use crate::utils::vshim as state_shim;
+
+/// Called at a yield point with the site id (see [`site`]).
+pub type YieldFn = fn(u16);
+/// Called at an event with the event kind (see [`event`]) and two payload words.
+pub type EventFn = fn(u16, usize, usize);
+
+static YIELD: AtomicPtr<()> = AtomicPtr::new(std::ptr::null_mut());
+static EVENT: AtomicPtr<()> = AtomicPtr::new(std::ptr::null_mut());
+
+/// Installs (or removes) the hooks. Meant to be called before any other thread uses the library.
+pub fn set_hooks(y: Option<YieldFn>, e: Option<EventFn>) {
+    YIELD.store(
+        y.map_or(std::ptr::null_mut(), |f| f as *const () as *mut ()),
+        Ordering::SeqCst,
+    );
+    EVENT.store(
+        e.map_or(std::ptr::null_mut(), |f| f as *const () as *mut ()),
+        Ordering::SeqCst,
+    );
+}
+
+/// A yield point: placed immediately before an access to shared state.
+#[inline]
+pub fn yp(site: u16) {
+    let p = YIELD.load(Ordering::Relaxed);
+    if !p.is_null() {
+        let f: YieldFn = unsafe { std::mem::transmute::<*mut (), YieldFn>(p) };
+        f(site);
+    }
+}
+
+/// An event: placed immediately after the state change it reports, with no yield point in between.
+#[inline]
+pub fn ev(kind: u16, a: usize, b: usize) {
+    let p = EVENT.load(Ordering::Relaxed);
+    if !p.is_null() {
+        let f: EventFn = unsafe { std::mem::transmute::<*mut (), EventFn>(p) };
+        f(kind, a, b);
+    }
+}
+
+/// Makes the provenance of a freshly allocated block available to later integer-to-pointer casts
+/// (the tagged-pointer representation round-trips pointers through integers).
+#[inline]
+pub fn expose<T>(p: *mut T) -> usize {
+    p as usize
+}
+
+/// Yield-point site ids.
+#[allow(missing_docs)]
+pub mod site {
+    // utils.rs
+    pub const INCS_ADD1: u16 = 1;
+    pub const INCS_ADD2: u16 = 2;
+    pub const TRY_DEALLOC_LOAD: u16 = 3;
+    pub const INCW_LOAD: u16 = 4;
+    pub const INCW_CAS: u16 = 5;
+    pub const INCW_ADD1: u16 = 6;
+    pub const INCW_ADD2: u16 = 7;
+    pub const DECW_SUB: u16 = 8;
+    pub const DECW_DEFER: u16 = 9;
+    pub const IND_LOAD: u16 = 10;
+    pub const IND_CAS: u16 = 11;
+    pub const DECS_EPOCH: u16 = 12;
+    pub const DECS_LOAD: u16 = 13;
+    pub const DECS_CAS: u16 = 14;
+    pub const DECS_DEFER: u16 = 15;
+    pub const TD_LOAD: u16 = 16;
+    pub const TD_CAS: u16 = 17;
+    pub const DISP_REPIN: u16 = 18;
+    pub const DISP_LOAD: u16 = 19;
+    pub const DISP_EPOCH: u16 = 20;
+    pub const DISP_WEAKED: u16 = 21;
+    pub const DISP_CHILD: u16 = 22;
+    pub const DISP_CHILD_CAS: u16 = 23;
+    pub const DISP_SIBLING: u16 = 24;
+    // strong.rs
+    pub const ARC_LOAD: u16 = 30;
+    pub const ARC_STORE_SWAP: u16 = 31;
+    pub const ARC_STORE_DEC: u16 = 32;
+    pub const ARC_SWAP: u16 = 33;
+    pub const ARC_CAS: u16 = 34;
+    pub const ARC_CAS_RETRY: u16 = 35;
+    pub const ARC_CAS_TAG: u16 = 36;
+    pub const ARC_TIMESTAMP: u16 = 37;
+    // weak.rs
+    pub const AW_LOAD: u16 = 40;
+    pub const AW_STORE_SWAP: u16 = 41;
+    pub const AW_STORE_DEC: u16 = 42;
+    pub const AW_SWAP: u16 = 43;
+    pub const AW_CAS: u16 = 44;
+    pub const AW_CAS_TAG: u16 = 45;
+    // internal.rs
+    pub const PUSH_BAG_FENCE: u16 = 50;
+    pub const PUSH_BAG_EPOCH: u16 = 51;
+    pub const PUSH_BAG_PUSH: u16 = 52;
+    pub const COLLECT_AFTER_ADVANCE: u16 = 53;
+    pub const COLLECT_POP: u16 = 54;
+    pub const ADV_GLOBAL: u16 = 55;
+    pub const ADV_LOCAL: u16 = 56;
+    pub const ADV_STORE: u16 = 57;
+    pub const PIN_GLOBAL: u16 = 58;
+    pub const PIN_PUBLISH: u16 = 59;
+    pub const PIN_VALIDATE: u16 = 60;
+    pub const PIN_RESET: u16 = 61;
+    pub const UNPIN_COLLECT: u16 = 62;
+    pub const UNPIN_CLEAR: u16 = 63;
+    pub const REPIN_LOAD: u16 = 64;
+    pub const REPIN_STORE: u16 = 65;
+    pub const FIN_PIN: u16 = 66;
+    pub const FIN_DELETE: u16 = 67;
+    pub const FIN_DROP: u16 = 68;
+    pub const WITH_HANDLE_FALLBACK: u16 = 69;
+    pub const BAG_CALL: u16 = 70;
+    // queue.rs
+    pub const Q_PUSH_TAIL: u16 = 80;
+    pub const Q_PUSH_NEXT: u16 = 81;
+    pub const Q_PUSH_HELP: u16 = 82;
+    pub const Q_PUSH_LINK: u16 = 83;
+    pub const Q_PUSH_SWING: u16 = 84;
+    pub const Q_POP_HEAD: u16 = 85;
+    pub const Q_POP_NEXT: u16 = 86;
+    pub const Q_POP_CAS: u16 = 87;
+    pub const Q_POP_TAIL: u16 = 88;
+    pub const Q_POP_FIX: u16 = 89;
+    pub const Q_POP_READ: u16 = 90;
+    // list.rs
+    pub const L_DELETE: u16 = 100;
+    pub const L_INS_LOAD: u16 = 101;
+    pub const L_INS_STORE: u16 = 102;
+    pub const L_INS_CAS: u16 = 103;
+    pub const L_ITER_HEAD: u16 = 104;
+    pub const L_ITER_NEXT: u16 = 105;
+    pub const L_ITER_UNLINK: u16 = 106;
+    pub const L_ITER_RESTART: u16 = 107;
+
+    pub const MAX: u16 = 128;
+
+    /// Human-readable name of a site id.
+    pub fn name(s: u16) -> &'static str {
+        match s {
+            1 => "increment_strong:add1",
+            2 => "increment_strong:add2",
+            3 => "try_dealloc:load",
+            4 => "increment_weak:load",
+            5 => "increment_weak:cas",
+            6 => "increment_weak:add1",
+            7 => "increment_weak:add2",
+            8 => "decrement_weak:sub",
+            9 => "decrement_weak:defer",
+            10 => "is_not_destructed:load",
+            11 => "is_not_destructed:cas",
+            12 => "decrement_strong:epoch",
+            13 => "decrement_strong:load",
+            14 => "decrement_strong:cas",
+            15 => "decrement_strong:defer",
+            16 => "try_destruct:load",
+            17 => "try_destruct:cas",
+            18 => "dispose:repin",
+            19 => "dispose:load",
+            20 => "dispose:epoch",
+            21 => "dispose:weaked",
+            22 => "dispose:child",
+            23 => "dispose:child_cas",
+            24 => "dispose:sibling",
+            30 => "AtomicRc::load",
+            31 => "AtomicRc::store:swap",
+            32 => "AtomicRc::store:dec",
+            33 => "AtomicRc::swap",
+            34 => "AtomicRc::cas",
+            35 => "AtomicRc::cas:retry",
+            36 => "AtomicRc::cas_tag",
+            37 => "with_timestamp:epoch",
+            40 => "AtomicWeak::load",
+            41 => "AtomicWeak::store:swap",
+            42 => "AtomicWeak::store:dec",
+            43 => "AtomicWeak::swap",
+            44 => "AtomicWeak::cas",
+            45 => "AtomicWeak::cas_tag",
+            50 => "push_bag:fence",
+            51 => "push_bag:epoch",
+            52 => "push_bag:push",
+            53 => "collect:after_advance",
+            54 => "collect:pop",
+            55 => "try_advance:global",
+            56 => "try_advance:local",
+            57 => "try_advance:store",
+            58 => "pin:global",
+            59 => "pin:publish",
+            60 => "pin:validate",
+            61 => "pin:reset",
+            62 => "unpin:collect",
+            63 => "unpin:clear",
+            64 => "repin:load",
+            65 => "repin:store",
+            66 => "finalize:pin",
+            67 => "finalize:delete",
+            68 => "finalize:drop",
+            69 => "with_handle:fallback",
+            70 => "bag:call",
+            80 => "queue:push:tail",
+            81 => "queue:push:next",
+            82 => "queue:push:help",
+            83 => "queue:push:link",
+            84 => "queue:push:swing",
+            85 => "queue:pop:head",
+            86 => "queue:pop:next",
+            87 => "queue:pop:cas",
+            88 => "queue:pop:tail",
+            89 => "queue:pop:fix",
+            90 => "queue:pop:read",
+            100 => "list:delete",
+            101 => "list:insert:load",
+            102 => "list:insert:store",
+            103 => "list:insert:cas",
+            104 => "list:iter:head",
+            105 => "list:iter:next",
+            106 => "list:iter:unlink",
+            107 => "list:iter:restart",
+            _ => "?",
+        }
+    }
+}
+
+/// Event kinds.
+#[allow(missing_docs)]
+pub mod event {
+    /// `a` = block address.
+    pub const ALLOC: u16 = 1;
+    /// `a` = block address. Entry of a deferred `try_destruct`.
+    pub const TD_ATTEMPT: u16 = 2;
+    /// `a` = block address. The DESTRUCTED flag was just set by a successful CAS.
+    pub const DESTRUCTED_SET: u16 = 3;
+    /// `a` = block address, `b` = recursion depth. Just before `pop_edges`.
+    pub const DESTRUCT_BEGIN: u16 = 4;
+    /// `a` = block address. Entry of `RcInner::dealloc`.
+    pub const DEALLOC: u16 = 5;
+    /// `a` = block address, `b` = 0: depth cap, 1: too recent.
+    pub const CASCADE_DEFER: u16 = 6;
+    /// `a` = new epoch value, `b` = address of the `Global`.
+    pub const EPOCH_ADVANCE: u16 = 7;
+    /// `a` = address of the `Local`, `b` = epoch value.
+    pub const PIN: u16 = 8;
+    /// `a` = address of the `Local`.
+    pub const UNPIN: u16 = 9;
+    /// `a` = address of the `Local`, `b` = epoch value.
+    pub const REPIN: u16 = 10;
+    /// `a` = epoch value, `b` = number of deferred functions.
+    pub const BAG_SEAL: u16 = 11;
+    /// A deferred function is about to be called.
+    pub const DEFERRED_CALL: u16 = 12;
+    /// `a` = block address. The reference-counting layer deferred a function for this block.
+    pub const RC_DEFER: u16 = 13;
+    /// `a` = block address. Entry of a deferred `try_dealloc`.
+    pub const TRY_DEALLOC: u16 = 14;
+    /// `a` = address of the `Local`. Entry of `Local::finalize`.
+    pub const FINALIZE: u16 = 15;
+    /// `a` = address of the `Global`, `b` = 0: begin, 1: end of `Global::collect`.
+    pub const COLLECT: u16 = 16;
+    /// `a` = element id. The list asked for the element to be freed (shim list).
+    pub const LIST_FINALIZE: u16 = 17;
+    /// `a` = element id. The element's memory was released (shim list).
+    pub const LIST_FREE: u16 = 18;
+
+    pub fn name(k: u16) -> &'static str {
+        match k {
+            1 => "ALLOC",
+            2 => "TD_ATTEMPT",
+            3 => "DESTRUCTED_SET",
+            4 => "DESTRUCT_BEGIN",
+            5 => "DEALLOC",
+            6 => "CASCADE_DEFER",
+            7 => "EPOCH_ADVANCE",
+            8 => "PIN",
+            9 => "UNPIN",
+            10 => "REPIN",
+            11 => "BAG_SEAL",
+            12 => "DEFERRED_CALL",
+            13 => "RC_DEFER",
+            14 => "TRY_DEALLOC",
+            15 => "FINALIZE",
+            16 => "COLLECT",
+            17 => "LIST_FINALIZE",
+            18 => "LIST_FREE",
+            _ => "?",
+        }
+    }
+}
+
+/// The fields of an object's count word.
+#[derive(Clone, Copy, Debug, PartialEq, Eq)]
+pub struct Counts {
+    /// Strong count.
+    pub strong: u32,
+    /// Weak count (including the implicit share of the strong side).
+    pub weak: u32,
+    /// Destruction has begun.
+    pub destructed: bool,
+    /// A weak pointer has been created at some point.
+    pub weaked: bool,
+    /// The 4-bit epoch stamp.
+    pub epoch: u32,
+    /// The raw word.
+    pub raw: u64,
+}
+
+impl Counts {
+    /// Decodes a raw count word.
+    pub fn from_raw(raw: u64) -> Self {
+        let (epoch, strong, weak, destructed, weaked) = state_shim::decode(raw);
+        Self {
+            strong,
+            weak,
+            destructed,
+            weaked,
+            epoch,
+            raw,
+        }
+    }
+}
+
+/// Reads the count word of the block at `addr` (an address returned by the `verif_addr` methods).
+///
+/// # Safety
+///
+/// The block must not have been deallocated.
+pub unsafe fn counts_at<T>(addr: usize) -> Counts {
+    Counts::from_raw(crate::utils::vshim::state_of::<T>(addr))
+}
+
+/// The global epoch of the default collector.
+pub fn global_epoch() -> usize {
+    crate::ebr_impl::global_epoch()
+}
